@@ -270,7 +270,7 @@ def run_shard(desc, seed, tier, H):
                  'implies_intr', 'implies_intr', 'weaken_svar', 'implies_elim', 'implies_elim', 'reflexive', 'symmetric', 'transitive',
                  'combination', 'combination', 'equal_intr', 'equal_elim', 'subst_type', 'substitution', 'substitution',
                  'beta_conv', 'abstraction', 'abstraction', 'forall_intr', 'forall_intr', 'forall_elim', 'forall_elim',
-                 'variable', 'random_prevs']))
+                 'variable', 'random_prevs', 'const_fun_pair']))
             adv = data.draw(st.integers(0, 4)) == 0
             if mode == 'assume':
                 T = BOOL if not adv else some_type()
@@ -452,6 +452,10 @@ def run_shard(desc, seed, tier, H):
                                                 unique_by=lambda v: v.name)):
                         T = codec.jt_subst(codec.type_enc(v.T), sig) if not adv else some_type()
                         inst[v.name] = term_of(T, adv, 2)
+                        if adv and data.draw(st.integers(0, 2)) == 0:
+                            # an open term whose loose variable hides in argument position (get_type does not look there)
+                            T0 = codec.jt_subst(codec.type_enc(v.T), sig)
+                            inst[v.name] = ['app', ['abs', 'z', T0, ['b', 0]], ['b', 0]]
                 var_inst = {}
                 if data.draw(st.integers(0, 3)) == 0:
                     fvs = []
@@ -461,6 +465,8 @@ def run_shard(desc, seed, tier, H):
                     if fvs:
                         v = data.draw(st.sampled_from(fvs))
                         var_inst[v.name] = term_of(codec.type_enc(v.T) if not adv else some_type(), adv, 2)
+                        if adv and data.draw(st.booleans()):
+                            var_inst[v.name] = ['app', ['abs', 'z', codec.type_enc(v.T), ['b', 0]], ['b', 0]]
                 if not inst and not tyinst and not var_inst:
                     inst['x'] = term_of(BOOL, False, 1)
                 a = {'inst': inst}
@@ -469,6 +475,32 @@ def run_shard(desc, seed, tier, H):
                 if var_inst:
                     a['var_inst'] = var_inst
                 try_step({'rule': 'substitution', 'args': a, 'prevs': [i]})
+            elif mode == 'const_fun_pair':
+                # fitted: |- (%y. t) a = (%y. t) b for a body t that does not use y (t may contain schematic
+                # variables): valid, and every later step that lets something be captured by %y breaks it
+                T = some_type()
+                aT = data.draw(st.sampled_from(gen.atom_types(opts)))
+                body = term_of(T, False, 1)
+                if data.draw(st.booleans()):
+                    body = ['sv', data.draw(st.sampled_from(['X', 'f', 'x'])), T]
+                lam = ['abs', 'y', aT, body]
+                a1, a2 = term_of(aT, False, 1), term_of(aT, False, 1)
+                n0 = len(steps)
+                if try_step({'rule': 'beta_conv', 'args': ['app', lam, a1], 'prevs': []}) and \
+                        try_step({'rule': 'beta_conv', 'args': ['app', lam, a2], 'prevs': []}) and \
+                        try_step({'rule': 'symmetric', 'args': None, 'prevs': [n0 + 1]}):
+                    if try_step({'rule': 'transitive', 'args': None, 'prevs': [n0, n0 + 2]}) and data.draw(st.booleans()):
+                        # ... for instance an instantiation by an open term (bare, or with the loose variable in
+                        # argument position), through inst or var_inst
+                        th = lines[-1]
+                        vs = [v for v in th.prop.get_svars()] + [v for v in th.prop.get_vars()]
+                        if vs:
+                            v = data.draw(st.sampled_from(vs))
+                            Tv = codec.type_enc(v.T)
+                            open_t = data.draw(st.sampled_from([['b', 0], ['app', ['abs', 'z', Tv, ['b', 0]], ['b', 0]],
+                                                                ['app', ['abs', 'z', Tv, ['b', 0]], ['b', 1]]]))
+                            key = 'inst' if v.is_svar() else 'var_inst'
+                            try_step({'rule': 'substitution', 'args': {'inst': {}, key: {v.name: open_t}}, 'prevs': [len(steps) - 1]})
             elif mode == 'beta_conv':
                 T = some_type()
                 if adv:
